@@ -142,7 +142,7 @@ PROPS = {
         'level_text': 'Proof over R: score = area*N/cellArea with cellArea = |AxB| (C14); LineShape area equals the shoelace area of the closed outline from_radial builds (n>=3, r>=0), (n/2) sin(2pi/n) for polygon n; disc-union area = measure of the union minus the triple intersection for any finite measure realising the disc and lens values (exact when no point lies in all three discs, an under-count otherwise: known finding F10). The lens value is proved for Lebesgue measure and axis-aligned discs in all three regimes (C02Lens.volume_inter_eq_circleOverlap, by integration). area / score / cell area are regenerated from the source and proved equal to the model (TieDisc, TieHardShape, TieCell, TiePacked). score <= 1: for N measurable copies ALL of whose lattice translates are pairwise disjoint (the conclusion of C01), N*area <= |det(A,B)| = cell area, for Lebesgue measure on the plane and the lattice spanned by any basis (C02Tiling.packing_fraction_le_one, from the principle of Blichfeldt and the ZSpan fundamental domain; the tiling hypothesis of covered_le_cell is thereby a theorem). Partial: the rigid motion reducing a general pair of discs to an axis-aligned one is not formalised; measurability of the placed shapes is a hypothesis.',
         'level_note': 'Trusted: lens-area closed form and "shoelace = area" as geometry; Lean kernel + 3 axioms; Mathlib measure theory; area/score functions tied by bit-exact pair/state families.',
         'technique': 'Lean 4 proof (trigonometric identities, inclusion-exclusion and integration in measure theory) + source-to-Lean translation with tie theorems + differential correspondence + exact-area oracle',
-        'theorems': ['Proofs.C02', 'Proofs.TieDisc', 'Proofs.TieCell', 'Proofs.TieHardShape', 'Proofs.TiePacked', 'Proofs.C02Lens', 'Proofs.SrcC02', 'Proofs.TieShapeDispatch', 'Proofs.C02Tiling'],
+        'theorems': ['Proofs.C02', 'Proofs.TieDisc', 'Proofs.TieCell', 'Proofs.TieHardShape', 'Proofs.TiePacked', 'Proofs.C02Lens', 'Proofs.SrcC02', 'Proofs.TieShapeDispatch', 'Proofs.C02Tiling', 'Proofs.TieCtor'],
         'families': [('pair_hard', 2500, 40000), ('state_hard', 1500, 20000), ('cell', 800, 10000)],
         'search': (12, 300),
         'rule': 'pair: area/radius/items of polygons 3..69 sides, radial polygons, circle, trimers over the CLI parameter space; search: shoelace oracle, union-of-discs area by tanh-sinh scanline integration stratified by overlap topology, score = N*area/|AxB| in (0,1] on random and optimised states',
@@ -176,7 +176,7 @@ PROPS = {
         'level_text': 'Partial proof. Determinism of the model is by construction (optimise / replica / cliRun are functions of state, settings and seed). Proved: from the source as it is now, Clone of Cell2/OccupiedSite allocates a fresh cell per parameter, no static/thread_local/Rc/Arc/RefCell/Mutex/Atomic exists, the only unsafe items are the four in basis.rs, a set seed bypasses entropy; noninterference: k replicas stepping over ONE shared heap under ANY interleaving through handles on pairwise disjoint cells with local scores end exactly as if run alone and never write a cell of another replica or of the original; every stage carries the replica index as seed; the reduction is bracketing-independent (C10). Not exhibited by the model: data races on the unsynchronised UnsafeCell, the memory model, rayon scheduling - covered empirically by thread sweeps of the real binary and a thread-pool oracle.',
         'level_note': 'Trusted: soundness of the hand-written unsafe impl Send/Sync given that each replica owns its cells (justified at source level by clone_fresh + move semantics); rayon; Lean kernel + 3 axioms; translator for Clone bodies and the shared-state inventory.',
         'technique': 'Lean 4 noninterference proof over a shared heap with arbitrary schedules + translator-pinned source inventory + differential correspondence of whole CLI runs under thread sweeps',
-        'theorems': ['Proofs.C09'],
+        'theorems': ['Proofs.C09', 'Proofs.TieCmp'],
         'families': [('cli', 25, 400), ('opt', 800, 10000)],
         'search': (25, 600),
         'rule': 'cli: real binary on small settings, all groups x shapes x potentials, replications 0..4, compared with the model pipeline (JSON dump + logged score); search: the same invocation under RAYON_NUM_THREADS in {1,2,3,4,8,16} and fresh processes must give byte-identical files; 2..5 different optimisations run 3x interleaved in rayon pools of 1..16 threads must equal their solo results bit for bit and leave the originals untouched',
@@ -188,7 +188,7 @@ PROPS = {
         'level_text': 'Full proof about the model of analyse_state (stage overrides and reduction regenerated from main.rs and pinned): the written structure is one of the replica results, its score is at least every replica\'s and equals the logged value; any bracketing of the reduction returns the last maximal element; replica i does not depend on the replication count, hence prefix monotonicity; optimisation changes parameters only, so the written structure carries the requested group name, family, shape, kind and the group\'s full number of copies; zero replications is an error. Table labels equal lookup names (kernel-decided on the regenerated table).',
         'level_note': 'Trusted: structopt/clap argument parsing; rayon; Lean kernel + 3 axioms; whole CLI runs of the real binary are compared with the model bit for bit (cli family).',
         'technique': 'Lean 4 proof over the pipeline model + translator-pinned stages/reduction/labels + differential correspondence with the real binary',
-        'theorems': ['Proofs.C10'],
+        'theorems': ['Proofs.C10', 'Proofs.TieCmp', 'Proofs.TieCtor'],
         'families': [('cli', 30, 500), ('tables', 14, 14)],
         'search': (25, 600),
         'rule': 'cli as for C09; search: real binary — logged score = score of the written file, labels = arguments, copies = group order, and the same invocation with 1..3 more replications never scores lower',
@@ -211,7 +211,7 @@ PROPS = {
         'level_text': 'Proof over R. Discs complete: test <=> the open discs share a point; symmetric; invariant under common rigid motions/reflections. Segments (after the tolerance fix): test <=> not near-parallel (|cross| <= 1e-12 |a||b|) and the 1e-12-extended segments share a point; yes implies points of the true segments within 1e-12(|a|+|b|); complete for non-near-parallel segments sharing a point; symmetric; invariant under orthogonal maps. Polygons: test <=> some such edge pair; coincident copies detected. Convex polygons: for closed strictly convex outlines of either orientation (which every placement of Shape.polygon n is: polygon_convexCW, ConvexOutline.transform) a common strictly interior point, neither outline nested strictly inside the other, forces two edges to share a point (convex_overlap_edges) and hence a positive test when meeting edges are not near-parallel (convex_overlap_detected_oriented). Partial: the angle hypothesis (crossings above the 1e-12 relative tolerance) and not-nestedness of congruent copies stay explicit hypotheses.',
         'level_note': 'Trusted: Lean kernel + 3 axioms; pair predicates tied by the bit-exact pair family; tolerance constant regenerated by the translator and pinned.',
         'technique': 'Lean 4 proof (planar geometry over R, convex outlines) + source-to-Lean translation of the pair predicates with tie theorems + bit-exact differential correspondence + separating-axis oracle',
-        'theorems': ['Proofs.C12', 'Proofs.C12Convex', 'Proofs.TieDisc', 'Proofs.TieLine', 'Proofs.TieHardShape', 'Proofs.C12Orient', 'Proofs.C12Polygon', 'Proofs.C12Placed', 'Proofs.SrcC12', 'Proofs.TieOps'],
+        'theorems': ['Proofs.C12', 'Proofs.C12Convex', 'Proofs.TieDisc', 'Proofs.TieLine', 'Proofs.TieHardShape', 'Proofs.C12Orient', 'Proofs.C12Polygon', 'Proofs.C12Placed', 'Proofs.SrcC12', 'Proofs.TieOps', 'Proofs.TieCtor'],
         'families': [('pair_hard', 4000, 80000), ('mat', 1000, 20000)],
         'search': (12, 300),
         'rule': 'pair: line/atom/shape intersects on placements around contact distance, transforms; search: separating-axis (convex polygons) and disc-distance oracle with 1e-9 tolerance, argument swap, common rigid motion/reflection, aligned special configurations (parallel edges, shared vertices, coincident copies, displacement along an edge direction)',
@@ -222,7 +222,7 @@ PROPS = {
         'level_text': 'Proof over R: uncut energy = 4 eps ((s^2/r^2)^6 - (s^2/r^2)^3) = 4 eps((s/r)^12-(s/r)^6); cut: shifted inside, exactly 0 at and beyond the cutoff; depends on the squared distance only; invariant under common rigid motions; >= -eps with equality iff (s^2/r^2)^3 = 1/2; molecule energy = sum over particle pairs; trimer constants sigma = 2 radius, cutoff 7/2 (generated). Partial: symmetry proved for like particles only; for unlike particles it is FALSE of the code (kernel-decided witness over Q) - known finding F11.',
         'level_note': 'Trusted: Lean kernel + 3 axioms; LJ2/LJShape2 energy tied by the bit-exact pair family.',
         'technique': 'Lean 4 proof over R + kernel-decided counterexample over Q + source-to-Lean translation of the function bodies with tie theorems + bit-exact differential correspondence',
-        'theorems': ['Proofs.C13', 'Proofs.TieLJ', 'Proofs.TieLJShape', 'Proofs.SrcC13', 'Proofs.TieOps'],
+        'theorems': ['Proofs.C13', 'Proofs.TieLJ', 'Proofs.TieLJShape', 'Proofs.SrcC13', 'Proofs.TieOps', 'Proofs.TieCtor'],
         'families': [('pair_lj', 4000, 80000)],
         'search': (10, 240),
         'rule': 'pair: lj2 energies over 3.5 orders of magnitude in r, sigma, epsilon, cut and uncut, molecule energies under random placements; search: closed-form oracle (powf), zero beyond cutoff, minimum, rigid-motion invariance, symmetry (like and unlike particles separately), molecule = sum over pairs',
@@ -301,7 +301,7 @@ PROPS = {
         'level_text': 'Full proof. The property quantifies over a finite space (7 tables, <=4 operations, <=16 products each); it is decided completely by the Lean kernel (decide +kernel at exact Rat) on tables regenerated from the current text of src/wallpaper.rs and parsed by the model parser, against the ITA reference; lifted to explicitly quantified theorems.',
         'level_note': 'Trusted: Lean kernel + 3 standard axioms; reference tables typed from International Tables A; translator pvtx.py (validated by the tables family: generated tables vs get_wallpaper_group + WyckoffSite::new on the real crate); model parser tied to from_operations by the parse family (bit-exact).',
         'technique': 'Lean 4 kernel decision (decide +kernel) over translator-regenerated tables + differential correspondence',
-        'theorems': ['Proofs.C16'],
+        'theorems': ['Proofs.C16', 'Proofs.TieParse'],
         'families': [('tables', 14, 14), ('parse', 4000, 60000)],
         'search': (5, 20),
         'rule': ('tables: every CLI variant plus unknown names, reply ok = non-trivial; parse: grammar/mutated/arbitrary strings, '
@@ -315,7 +315,7 @@ PROPS = {
         'level_text': 'Full proof of the grammar clause (every string of the inductively defined grammar parses to the affine map its expression denotes, over any field) and of totality/error clauses for all strings, about a character-level model of from_operations.',
         'level_note': 'Trusted: Lean kernel + 3 standard axioms; the model parser is tied to Transform2::from_operations by bit-exact differential correspondence on grammar, mutated and arbitrary Unicode strings; f64 rounding of d/e outside the theorem; Rust-level absence of panics rests on the modelled control flow (index sites guarded by the dimension check).',
         'technique': 'Lean 4 structural induction over an inductive grammar + differential correspondence',
-        'theorems': ['Proofs.C17'],
+        'theorems': ['Proofs.C17', 'Proofs.TieParse'],
         'families': [('parse', 20000, 400000)],
         'search': (8, 120),
         'rule': ('parse: 60% grammar strings (all term orders/signs/spacing), 20% mutated, 10% alphabet noise, 10% arbitrary Unicode; '
